@@ -693,6 +693,8 @@ class Dataset(AbstractDataset, dict, OpMixin, GetSetDelAttrMixin):
             dataset.axes[axis][mask] = values[mask]
 
             for k in dataset.keys():
+                if newax.name not in dataset[k].dims:
+                    continue # variables without that dimension are left alone
                 if method is None:
                     dataset[k].put(mask, fill_value, axis=axis, inplace=True, indexing="position", cast=True)
 
